@@ -7,6 +7,7 @@
 #include "Parameters.h"
 #include "Data.h"
 #include <cstdio>
+#include <cstdlib>
 #include <cstring>
 #include <cstdint>
 #include <map>
@@ -63,9 +64,10 @@ static std::vector<std::string> splitList(const std::string& s, char sep) {
     return split(s, sep);
 }
 
+static bool showWhat = std::getenv("HARNESS_WHAT") != nullptr;
 static std::string classify(const std::function<void()>& fn) {
     try { fn(); return "ok"; }
-    catch (std::ios_base::failure&) { return "throw ios_failure"; }
+    catch (std::ios_base::failure& e) { if (showWhat) std::fprintf(stderr, "what: %s\n", e.what()); return "throw ios_failure"; }
     catch (std::out_of_range&) { return "throw out_of_range"; }
     catch (std::invalid_argument&) { return "throw invalid_argument"; }
     catch (std::length_error&) { return "throw length_error"; }
